@@ -257,3 +257,142 @@ theorem writeBackN_sum : ∀ (is sel ds : List Nat), is.length = sel.length → 
       simp only [List.sum_cons]; omega
 
 end ZChain.StakePool
+
+/-! ## the stored delegate rewards follow the recorded increments -/
+namespace ZChain.StakePool
+open ZChain ZChain.Coin
+
+/-- `R3 ps0 ps ds`: pool by pool, `ps` is `ps0` with `ds` added to the reward (balances untouched). -/
+inductive R3 : List DP → List DP → List Nat → Prop
+  | nil : R3 [] [] []
+  | cons {p0 p : DP} {d : Nat} {ps0 ps : List DP} {ds : List Nat} :
+      p.reward = p0.reward + d → p.balance = p0.balance → R3 ps0 ps ds → R3 (p0 :: ps0) (p :: ps) (d :: ds)
+
+theorem R3_refl_zero : ∀ (ps : List DP), R3 ps ps (ps.map (fun _ => 0)) := by
+  intro ps
+  induction ps with
+  | nil => exact R3.nil
+  | cons p ps ih => exact R3.cons (by simp) rfl ih
+
+theorem distLoop_R3 (vl stake : Nat) : ∀ (ps : List DP) (vb : Nat) (ps' : List DP) (ds : List Nat) (vbf : Nat),
+    distLoop vl stake ps vb = .ok (ps', ds, vbf) → R3 ps ps' ds := by
+  intro ps
+  induction ps with
+  | nil =>
+    intro vb ps' ds vbf h
+    unfold distLoop at h
+    injection h with h; injection h with h1 h2; injection h2 with h2 h3
+    subst h1 h2; exact R3.nil
+  | cons dp rest ih =>
+    intro vb ps' ds vbf h
+    unfold distLoop at h
+    split at h
+    · injection h with h; injection h with h1 h2; injection h2 with h2 h3
+      subst h1 h2
+      exact R3_refl_zero _
+    · obtain ⟨r0, _, h⟩ := bind_ok h
+      obtain ⟨nr, hnr, h⟩ := bind_ok h
+      obtain ⟨⟨rest', drs, vbf'⟩, hrec, h⟩ := bind_ok h
+      injection h with h; injection h with h1 h2; injection h2 with h2 h3
+      subst h1 h2
+      obtain ⟨e, _⟩ := addCoin_ok (liftC_ok hnr)
+      exact R3.cons e rfl (ih _ _ _ _ hrec)
+
+theorem addShare_R3 (share : Nat) : ∀ (ps0 ps : List DP) (ds : List Nat) (ps1 : List DP) (ds1 : List Nat),
+    R3 ps0 ps ds → addShare share (Int.ofNat share) ps ds = .ok (ps1, ds1) → R3 ps0 ps1 ds1 := by
+  intro ps0 ps ds ps1 ds1 hr
+  induction hr generalizing ps1 ds1 with
+  | nil => intro h; unfold addShare at h; injection h with h; injection h with h1 h2; subst h1 h2; exact R3.nil
+  | cons e eb _ ih =>
+    intro h
+    unfold addShare at h
+    obtain ⟨nr, hnr, h⟩ := bind_ok h
+    obtain ⟨nd, hnd, h⟩ := bind_ok h
+    obtain ⟨⟨psr, dsr⟩, hrec, h⟩ := bind_ok h
+    injection h with h; injection h with h1 h2; subst h1 h2
+    obtain ⟨e1, _⟩ := addCoin_ok (liftC_ok hnr)
+    have hnd' := liftC_ok hnd
+    unfold addInt64 at hnd'
+    rw [ofInt64_ofNat] at hnd'
+    obtain ⟨e2, _⟩ := addCoin_ok hnd'
+    exact R3.cons (by simp only; omega) eb (ih _ _ hrec)
+
+theorem bumpFirst_R3 : ∀ (k : Nat) (ps0 ps : List DP) (ds : List Nat) (B : Nat), R3 ps0 ps ds → k ≤ ds.length →
+    ds.sum + k ≤ B → (∀ p0 ∈ ps0, p0.reward + B < U64) → B < U64 →
+    R3 ps0 (bumpFirst k ps ds).1 (bumpFirst k ps ds).2 := by
+  intro k
+  induction k with
+  | zero => intro ps0 ps ds B hr _ _ _ _; simpa [bumpFirst] using hr
+  | succ k ih =>
+    intro ps0 ps ds B hr hk hb hB hBU
+    cases hr with
+    | nil => simp at hk
+    | cons e eb hrest =>
+      rename_i p0 p d ps0' ps' ds'
+      simp only [List.length_cons, Nat.add_le_add_iff_right] at hk
+      simp only [List.sum_cons] at hb
+      have hp0 := hB p0 List.mem_cons_self
+      simp only [bumpFirst]
+      refine R3.cons ?_ eb (ih ps0' ps' ds' (B - d - 1) hrest hk (by omega)
+        (fun q hq => by have := hB q (List.mem_cons_of_mem _ hq); omega) (by omega))
+      rw [wrapAdd_one (by omega), wrapAdd_one (by omega)]
+      simp only; omega
+
+theorem R3_length {ps0 ps : List DP} {ds : List Nat} (h : R3 ps0 ps ds) : ps.length = ps0.length ∧ ds.length = ps0.length := by
+  induction h with
+  | nil => exact ⟨rfl, rfl⟩
+  | cons _ _ _ ih => simp [ih.1, ih.2]
+
+theorem equally_R3 (coins : Nat) (ps0 ps : List DP) (ds : List Nat) (ps' : List DP) (ds' : List Nat) (B : Nat)
+    (hr : R3 ps0 ps ds) (hne : 0 < ps.length) (hb : ds.sum + coins ≤ B) (hB : ∀ p0 ∈ ps0, p0.reward + B < U64) (hBU : B < U64)
+    (h : equally coins ps ds = .ok (ps', ds')) : R3 ps0 ps' ds' := by
+  have hl := R3_length hr
+  have hlen : ps.length = ds.length := by rw [hl.1, hl.2]
+  unfold equally at h
+  obtain ⟨⟨share, r⟩, hd, h⟩ := bind_ok h
+  obtain ⟨c, hc, h⟩ := bind_ok h
+  have hd' := liftC_ok hd
+  unfold distributeCoin at hd'
+  rw [ofInt64_ofNat] at hd'
+  simp only at hd'
+  have hlen0 : ps.length ≠ 0 := by omega
+  rw [if_neg hlen0] at hd'
+  injection hd' with hd'; injection hd' with hs hrm
+  have hc' := liftC_ok hc
+  unfold toInt64 at hc'
+  split at hc'
+  · injection hc' with hc'
+    subst hc'
+    have hdm := Nat.div_add_mod coins ps.length
+    split at h
+    · rename_i hs0
+      injection h with hfin
+      have hlt : coins < ps.length := by
+        rw [← hs] at hs0
+        exact (Nat.div_eq_zero_iff.mp hs0).resolve_left hlen0
+      rw [show (Int.ofNat coins).toNat = coins from rfl] at hfin
+      have := bumpFirst_R3 coins ps0 ps ds B hr (by rw [← hlen]; exact Nat.le_of_lt hlt) hb hB hBU
+      rw [hfin] at this
+      exact this
+    · obtain ⟨iShare, hi, h⟩ := bind_ok h
+      obtain ⟨⟨ps1, ds1⟩, ha, h⟩ := bind_ok h
+      injection h with hfin
+      have hi' := liftC_ok hi
+      unfold toInt64 at hi'
+      split at hi'
+      · injection hi' with hi'
+        subst hi'
+        have hr1 := addShare_R3 share ps0 ps ds ps1 ds1 hr ha
+        obtain ⟨a, b, c⟩ := addShare_spec share ps ds ps1 ds1 hlen ha
+        have hrlt : r < ps.length := by rw [← hrm]; exact Nat.mod_lt _ (by omega)
+        have hsum : ds1.sum + r = ds.sum + coins := by
+          rw [a, ← hlen, ← hs, ← hrm]
+          have : coins / ps.length * ps.length = ps.length * (coins / ps.length) := Nat.mul_comm _ _
+          omega
+        have := bumpFirst_R3 r ps0 ps1 ds1 B hr1 (by rw [b, ← hlen]; exact Nat.le_of_lt hrlt) (by omega) hB hBU
+        rw [hfin] at this
+        exact this
+      · cases hi'
+  · cases hc'
+
+end ZChain.StakePool
